@@ -48,6 +48,12 @@ def run(tier, seed):
         ri.append((sp, dict(o, flags=[False, True])))
         ri.append((sp, dict(o, flags=[False, False])))
     ri += stepcheck.restarted_items(its[:: (9 if tier == "quick" else 4)], ks=(1, 2), flags=(True, False))
+    for sp, o in its[:: (7 if tier == "quick" else 3)]:
+        for k in (1, 2, 3):
+            ri.append((sp, dict(o, presim=1, presim_cut=k + 1, presim_absence=[k])))  # the earlier run ended one step after a project absence step
+            wn = F.worker_names(sp)[:1]
+            if wn:
+                ri.append((sp, dict(o, presim=1, presim_cut=k + 1, res_absence={wn[0]: [k]})))  # ... after a personal absence step of the first worker
     ri += stepcheck.resumed_edit_items(("worker-absence-append-3",), ks=(1, 2, 3))
     # a checkpoint written at step k and read back - into a new project, and into the same project object - before the run goes on
     for sp, o in its[:: (11 if tier == "quick" else 4)]:
